@@ -437,6 +437,12 @@ impl<'l> StringTokenizer<'l> {
         'outer: loop {
             if let Some(next) = self.scanner.peek() {
                 match next {
+                    // after `0x` every hexadecimal digit belongs to the literal (also `e`, which
+                    // would otherwise start an exponent)
+                    c if base == 16 && c.is_ascii_hexdigit() => {
+                        working.push(c);
+                        self.scanner.next();
+                    }
                     '0' => {
                         working.push(next);
                         self.scanner.next();
